@@ -47,6 +47,10 @@ func idxValuePool(r *rng.R) []interface{} {
 	if r.Chance(0.3) {
 		out = append(out, longStr("a"), longStr("b"), longStr("bb"), medStr("x"), medStr("y"))
 	}
+	if r.Chance(0.15) {
+		// integers far apart (their difference does not fit 64 bits) and beyond 2^53 but exact in float64
+		out = append(out, i64(3<<61), i64(-(3<<61)), i64(1<<60), u64(1<<63))
+	}
 	n := r.Range(5, 14)
 	for i := 0; i < n; i++ {
 		out = append(out, val.Clone(pool[r.Intn(len(pool))]))
